@@ -1083,6 +1083,53 @@ func (check typecheck) argument(p param, ftyp *itype, i, l int, ellipsis bool) e
 	return check.assignment(p.nod, atyp, "")
 }
 
+// callValue checks that the call expression n returns exactly one result where a single value is expected.
+func (check typecheck) callValue(n *node) error {
+	c, anc := n, n.anc
+	for anc != nil && anc.kind == parenExpr {
+		c, anc = anc, anc.anc
+	}
+	if anc == nil {
+		return nil
+	}
+	switch anc.kind {
+	case exprStmt, goStmt, deferStmt:
+		// Results are ignored.
+		return nil
+	case assignXStmt, defineXStmt:
+		if anc.lastChild() == c {
+			// The number of results is checked against the number of assigned variables.
+			return nil
+		}
+	case returnStmt:
+		if len(anc.child) == 1 {
+			// The results are checked against the function signature.
+			return nil
+		}
+	case callExpr:
+		if anc.child[0] != c {
+			// The results are checked against the parameters.
+			return nil
+		}
+	}
+	name := "function call"
+	if s := n.child[0].name(); s != "" {
+		name = s + "()"
+	}
+	ftyp := n.child[0].typ
+	for ftyp.cat == linkedT {
+		ftyp = ftyp.val
+	}
+	switch nout := ftyp.numOut(); nout {
+	case 0:
+		return n.cfgErrorf("%s (no value) used as value", name)
+	case 1:
+		return nil
+	default:
+		return n.cfgErrorf("multiple-value %s (%d values) in single-value context", name, nout)
+	}
+}
+
 func getArg(ftyp *itype, i int) *itype {
 	l := ftyp.numIn()
 	switch {
